@@ -100,6 +100,44 @@ def parse_body(ctx, text):
     return p.close()
 
 
+def node_at(e, path):
+    for k in path:
+        e = e[k]
+    return e
+
+
+def probe(ctx, rep, tier, rng, items, meta, cls, clean, base, path, ncls, kind, u, pos, wire_p=None):
+    """one insertion: the property on the implementation (tree level and through XML / SGML text) and one correspondence case"""
+    dirty = copy.deepcopy(clean)
+    node_at(dirty, path).insert(pos, u)
+    got, wtags = H.run_from_etree(ctx, dirty)
+    case = {"class": cls.__name__, "kind": kind, "receiver": ncls.__name__, "path": list(path), "pos": pos, "inserted": ET.tostring(u).decode(), "clean": ET.tostring(clean).decode()}
+    rep.count((cls.__name__, kind, path, pos, u.tag), nontrivial=True, kind="tree:" + kind)
+    if got[0] != "ok":
+        rep.failures.append(C.Failure("insert-%s:document-rejected" % kind, "inserting %s into %s of a valid %s makes conversion fail with %s" % (case["inserted"], ncls.__name__, cls.__name__, got[1]), case))
+    elif not H.inst_equal(ctx, base[1], got[1]):
+        rep.failures.append(C.Failure("insert-%s:model-changed" % kind, "inserting %s into %s of a valid %s changes the converted model" % (case["inserted"], ncls.__name__, cls.__name__), case))
+    c, out, tg = H.case_from(ctx, dirty)
+    items.append(c); meta.append(case)
+    if wire_p is None:
+        wire_p = 1.0 if tier == "thorough" else 0.5
+    if rng.random() < wire_p:
+        for form, render in (("xml", render_xml), ("sgml", render_sgml)):
+            try:
+                t_clean = parse_body(ctx, render(clean)); t_dirty = parse_body(ctx, render(dirty))
+            except Exception as e:
+                continue    # tokenizer trouble on the clean or contaminated text is C02/C08's subject
+            b2, _ = H.run_from_etree(ctx, t_clean)
+            g2, _ = H.run_from_etree(ctx, t_dirty)
+            rep.count((cls.__name__, kind, path, pos, u.tag, form), nontrivial=True, kind="wire-%s:%s" % (form, kind))
+            if b2[0] != "ok":
+                continue
+            if g2[0] != "ok":
+                rep.failures.append(C.Failure("insert-%s:document-rejected" % kind, "(%s rendering) inserting %s into %s of a valid %s makes conversion fail with %s" % (form, case["inserted"], ncls.__name__, cls.__name__, g2[1]), dict(case, form=form)))
+            elif not H.inst_equal(ctx, b2[1], g2[1]):
+                rep.failures.append(C.Failure("insert-%s:model-changed" % kind, "(%s rendering) inserting %s changes the converted model of %s" % (form, case["inserted"], cls.__name__), dict(case, form=form)))
+
+
 def run(rep, tier, rng):
     ctx = H.Ctx()
     if ctx.d["problems"]:
@@ -131,44 +169,37 @@ def run(rep, tier, rng):
                 kc = [t for t in kc if t not in ("CODE", "SEVERITY", "INNER", "DEEP")]
                 utag = rng.choice(tags)
                 u = make_insert(kind, utag, rng, [t for t in kc if t != utag] if kind in ("aggregate", "vendor-aggregate") else ())
-                dirty = copy.deepcopy(clean)
-                node = dirty
-                for k in path:
-                    node = node[k]
-                pos = rng.randint(0, len(node))
-                node.insert(pos, u)
-                # ---- property on the implementation, tree level
-                got, wtags = H.run_from_etree(ctx, dirty)
-                case = {"class": cls.__name__, "kind": kind, "receiver": ncls.__name__, "path": list(path), "pos": pos, "inserted": ET.tostring(u).decode(), "clean": ET.tostring(clean).decode()}
-                rep.count((cls.__name__, kind, path, pos, u.tag), nontrivial=True, kind="tree:" + kind)
-                if got[0] != "ok":
-                    rep.failures.append(C.Failure("insert-%s:document-rejected" % kind, "inserting %s into %s of a valid %s makes conversion fail with %s" % (case["inserted"], ncls.__name__, cls.__name__, got[1]), case))
-                elif not H.inst_equal(ctx, base[1], got[1]):
-                    rep.failures.append(C.Failure("insert-%s:model-changed" % kind, "inserting %s into %s of a valid %s changes the converted model" % (case["inserted"], ncls.__name__, cls.__name__), case))
-                # ---- correspondence case (model vs implementation on the contaminated tree)
-                c, out, tg = H.case_from(ctx, dirty)
-                items.append(c); meta.append(case)
-                # ---- property on the implementation, through the wire (XML and SGML)
-                if rng.random() < (1.0 if tier == "thorough" else 0.5):
-                    for form, render in (("xml", render_xml), ("sgml", render_sgml)):
-                        try:
-                            t_clean = parse_body(ctx, render(clean)); t_dirty = parse_body(ctx, render(dirty))
-                        except Exception as e:
-                            continue    # tokenizer trouble on the clean or contaminated text is C02/C08's subject
-                        b2, _ = H.run_from_etree(ctx, t_clean)
-                        g2, _ = H.run_from_etree(ctx, t_dirty)
-                        rep.count((cls.__name__, kind, path, pos, u.tag, form), nontrivial=True, kind="wire-%s:%s" % (form, kind))
-                        if b2[0] != "ok":
-                            continue
-                        if g2[0] != "ok":
-                            rep.failures.append(C.Failure("insert-%s:document-rejected" % kind, "(%s rendering) inserting %s into %s of a valid %s makes conversion fail with %s" % (form, case["inserted"], ncls.__name__, cls.__name__, g2[1]), dict(case, form=form)))
-                        elif not H.inst_equal(ctx, b2[1], g2[1]):
-                            rep.failures.append(C.Failure("insert-%s:model-changed" % kind, "(%s rendering) inserting %s changes the converted model of %s" % (form, case["inserted"], cls.__name__), dict(case, form=form)))
+                pos = rng.randint(0, len(node_at(clean, path)))
+                probe(ctx, rep, tier, rng, items, meta, cls, clean, base, path, ncls, kind, u, pos)
+    # ---- systematic stream: classes whose wire tags differ from their attribute names (groom / ungroom renames).  The renamed child is
+    #      forced present and an unknown aggregate CONTAINING that wire tag (and one containing the attribute's own tag) goes to every position:
+    #      otherwise-known content inside an unknown subtree must never be looked at, renamed or not
+    for cls in ctx.concrete:
+        probe_obj = H.gen_instance(ctx, cls, rng, depth=1, full=1.0)
+        if probe_obj is None:
+            continue
+        try:
+            wire_tags = [c.tag for c in probe_obj.to_etree()]
+        except Exception:
+            continue
+        renamed = [t for t in wire_tags if t.lower() not in cls.spec]
+        for wt in renamed:
+            clean = probe_obj.to_etree()
+            base, _ = H.run_from_etree(ctx, clean)
+            if base[0] != "ok":
+                continue
+            for utag, inner in (("INTU.HISTORY", wt), ("FOO", wt), ("ZZTOP", wt), ("X.Y", wt)):
+                for pos in range(len(clean) + 1):
+                    u = ET.Element(utag)
+                    ET.SubElement(u, "CODE").text = "7"
+                    ET.SubElement(u, inner).text = "9"
+                    probe(ctx, rep, tier, rng, items, meta, cls, clean, base, (), cls, "aggregate-holding-renamed-tag", u, pos, wire_p=1.0)
     for m in meta[:3]:
         rep.sample(m)
     rep.rule = ("every concrete class: %d valid instance(s) -> to_etree; %d insertions each at a random aggregate node and position, kinds %s, tags unknown to the receiving class "
                 "(incl. tags known elsewhere); compared: conversion of clean vs contaminated document at tree level and through XML / SGML bytes (implementation), and "
-                "Model.Convert.from_etree vs Aggregate.from_etree on every contaminated tree. distinct by (class, kind, path, position, tag, form)" % (per_class, n_ins, KINDS))
+                "Model.Convert.from_etree vs Aggregate.from_etree on every contaminated tree; plus, for every class one of whose wire tags is not an attribute name (groom renames), "
+                "unknown aggregates holding that wire tag at EVERY position of an instance that has the renamed child. distinct by (class, kind, path, position, tag, form)" % (per_class, n_ins, KINDS))
     bad = C.coq_bad_indices(PROP, "insert", IMPORTS, "ccase_ok S", "ccase", items, shard=150, prelude="Local Open Scope string_scope.")
     for i in bad[:30]:
         rep.disagreements.append(dict(meta[i], case=items[i][:1200]))
